@@ -73,6 +73,16 @@ class Check(RuntimeCheck):
             # the full deviation-free history
             evs = [scn.build(0, 0, 'strict', tree)] + [scn.call(0, pm, pa) for (pm, pa) in expected] + [scn.verify(0)]
             out.append(scn.scenario(f"x{k}", evs)); k += 1
+        # the declared global sequence of a flat tuple of n ordered clauses, for every tuple arity 2..16 (each arity is its
+        # own `Clause` impl): called in declaration order, and with the last two calls transposed
+        from .c14 import leaf, leaf_call
+        for n in range(2, 17):
+            tree = tup([leaf(j) for j in range(n)])
+            evs = [scn.build(0, 0, 'strict', tree)] + [leaf_call(j) for j in range(n)] + [scn.verify(0)]
+            out.append(scn.scenario(f"ar{n}", evs))
+            order = list(range(n)); order[n - 2], order[n - 1] = order[n - 1], order[n - 2]
+            evs = [scn.build(0, 0, 'strict', tree)] + [leaf_call(j) for j in order] + [scn.drop(0)]
+            out.append(scn.scenario(f"ar{n}t", evs))
         return [('prefix-tree', ''.join(out))]
 
     def profiles(self, tier):
